@@ -368,7 +368,7 @@ def run(pid, tier, seed):
     mcs = [m for m in mcs if os.path.exists(os.path.join(SPEC, "MCAgent_%s.cfg" % m))]
     states = transitions = 0
     mcstats = {}
-    with cf.ThreadPoolExecutor(max_workers=3) as ex:
+    with cf.ThreadPoolExecutor(max_workers=6) as ex:
         futs = [ex.submit(mc_run, m) for m in mcs]
         if pid == "C20":
             for nm in (["d7"] if tier == "quick" else ["d7", "d1", "d7_time"]):
